@@ -24,11 +24,14 @@ type vxSnapWorld struct {
 
 // vxSymFrames returns n committed single-frame transactions on pages 1..3 (the
 // database keeps its size of 3 pages).
-func vxSymFrames(n int, name string) []vxFrame {
+func vxSymFrames(n int, name string) []vxFrame { return vxSymFramesSized(n, name, 3) }
+
+// vxSymFramesSized: the same on a database of `size` pages.
+func vxSymFramesSized(n int, name string, size uint32) []vxFrame {
 	var fr []vxFrame
 	for i := 0; i < n; i++ {
-		pg := uint32(vx.Range(name+"pg", 1, 3))
-		fr = append(fr, vxFrame{pgno: pg, commit: 3, tag: vx.U64(name + "tag")})
+		pg := uint32(vx.Range(name+"pg", 1, uint64(size)))
+		fr = append(fr, vxFrame{pgno: pg, commit: size, tag: vx.U64(name + "tag")})
 	}
 	return fr
 }
@@ -49,12 +52,22 @@ func vxApplyFrames(state *[3]uint64, fr []vxFrame) {
 //	            sync (litestream was on read mark 0): the database file holds the
 //	            state at pos, the new generation holds `later` newer transactions.
 func vxSnapshotWorld() *vxSnapWorld {
-	w := &vxSnapWorld{pos: 3, sizePos: 3}
+	w := &vxSnapWorld{pos: 3}
 	dir := vx.TempDir()
 	path := dir + "/app.db"
 	base := [3]uint64{vx.U64("base"), vx.U64("base"), vx.U64("base")}
 	c := vx.Choose("synced", 1, 2) // frames of generation 0 covered by level-0 files up to pos
 	g0 := vxGen{salt1: 100, salt2: 200, frames: vxSymFrames(c, "g0")}
+	// the last replicated transaction may have shrunk the database to two pages
+	// (VACUUM, auto_vacuum); it stays that size afterwards
+	size := uint32(3)
+	if vx.Fault("shrunk") {
+		size = 2
+		last := &g0.frames[c-1]
+		last.commit = 2
+		vx.Assume(last.pgno <= 2)
+	}
+	w.sizePos = size
 	w.atPos = base
 	vxApplyFrames(&w.atPos, g0.frames)
 	later := vx.Choose("later", 0, 2)
@@ -62,18 +75,23 @@ func vxSnapshotWorld() *vxSnapWorld {
 	var gens []vxGen
 	dbState := base
 	if scenario == 0 {
-		g0.frames = append(g0.frames, vxSymFrames(later, "late")...)
+		g0.frames = append(g0.frames, vxSymFramesSized(later, "late", size)...)
 		if vx.Fault("openTx") {
-			g0.frames = append(g0.frames, vxFrame{pgno: uint32(vx.Range("openpg", 1, 3)), commit: 0, tag: vx.U64("opentag")})
+			g0.frames = append(g0.frames, vxFrame{pgno: uint32(vx.Range("openpg", 1, uint64(size))), commit: 0, tag: vx.U64("opentag")})
 		}
 		gens = []vxGen{g0}
 	} else {
 		// generation 0 was fully backfilled before the restart
 		dbState = w.atPos
-		g1 := vxGen{salt1: 101, salt2: uint32(vx.Range("g1salt2", 0, 1<<31-1)), frames: vxSymFrames(later, "g1")}
+		g1 := vxGen{salt1: 101, salt2: uint32(vx.Range("g1salt2", 0, 1<<31-1)), frames: vxSymFramesSized(later, "g1", size)}
 		gens = []vxGen{g0, g1}
 	}
-	vx.FSWriteFile(path, vxDBFile(vxPageSize, dbState[:]))
+	if scenario == 1 {
+		// the checkpoint that preceded the restart cut the file to the committed size
+		vx.FSWriteFile(path, vxDBFile(vxPageSize, dbState[:size]))
+	} else {
+		vx.FSWriteFile(path, vxDBFile(vxPageSize, dbState[:]))
+	}
 	vx.FSWriteFile(path+"-wal", vxWALImageOf(vxPageSize, gens))
 	db := NewDB(path)
 	db.pageSize = vxPageSize
@@ -174,15 +192,16 @@ func VxC02Snapshot() {
 	}
 	vx.Assert("snapshot-range-is-1-to-pos", snap.min == 1 && snap.max == w.pos)
 	vx.Assert("snapshot-size-is-size-at-pos", snap.commit == w.sizePos)
-	ok := len(snap.pages) == 3
-	for i := 0; ok && i < 3; i++ {
+	n := int(w.sizePos)
+	ok := len(snap.pages) == n
+	for i := 0; ok && i < n; i++ {
 		ok = snap.pages[i].pgno == uint32(i+1)
 	}
 	vx.Assert("snapshot-holds-every-page-once", ok)
 	if !ok {
 		return
 	}
-	for i := 0; i < 3; i++ {
+	for i := 0; i < n; i++ {
 		vx.Assert("page-image-is-the-one-at-pos", snap.pages[i].tag == w.atPos[i])
 	}
 	vx.Assert("checkpoint-lock-released-after-read", w.db.chkMu.TryLock())
